@@ -131,7 +131,9 @@ SetVerdict(e, raw) ==
   ELSE IF e.got # Expect(e) THEN "setter-not-reflected-" \o e.field
   ELSE IF IsCompOp(e) /\ CompFrameBroken(e) THEN "component-setter-changed-another-component-or-attribute"
   ELSE IF FrameBroken(e) # "" THEN "setter-" \o e.field \o "-changed-another-" \o FrameBroken(e)
-  ELSE IF e.field = "seg.upidtype" /\ e.arg = e.before.descs[e.seg_index + 1].upidtype /\ e.after # e.before THEN "setting-the-upid-type-it-already-has-changed-the-descriptor"
+  ELSE IF e.repeat /\ e.after # e.before THEN "repeating-a-setter-call-with-the-same-argument-changed-the-object"
+  \* (type 0 = "not used" is excluded: giving it again legitimately drops UPID bytes that were stored under it)
+  ELSE IF e.field = "seg.upidtype" /\ e.arg # 0 /\ e.arg = e.before.descs[e.seg_index + 1].upidtype /\ e.after # e.before THEN "setting-the-upid-type-it-already-has-changed-the-descriptor"
   ELSE IF e.field = "seg.type" /\ e.arg \in {52, 54} /\ e.after.descs[e.seg_index + 1].hassub # e.before.descs[e.seg_index + 1].hassub THEN "settype-changes-sub-segments"
   ELSE IF e.field = "seg.type" /\ e.arg \notin {52, 54} /\ e.hassub_after THEN "settype-keeps-sub-segments"
   ELSE IF e.data_after # raw THEN "data-changed-by-setter"
